@@ -53,6 +53,10 @@ ASSUMPTIONS = [
     "next to 0 and next to pi is sqrt(2*k*1.1e-16) <= 3e-8 rad (k <= 4 rounding errors in the cosine), i.e. a follower "
     "error <= 3e-8*|follower - origin|; a wrongly resolved sense within that distance of pi costs twice as much: "
     "tolerance 1e-6*(scale + |follower - origin|)",
+    "a link's leader is a public numpy array: 'the leader moves' covers assigning a new array (what the optimizer "
+    "does) and changing the array in place (slice assignment, +=, item assignment); an optional initial_param of a "
+    "CurveClamp is, as documented, only a starting point (drawn 1-10 % of the parameter range off; not used for "
+    "polylines, where a start on another segment legitimately stalls a smooth minimiser at a corner)",
     "links are given float arrays (as the optimizer does), never integer arrays",
 ]
 
@@ -192,6 +196,8 @@ def check_clamp(case, ctx: Ctx) -> None:
     ctx.label("placed-at=%g" % place["ratio"])
     if spec.get("near_guess") is not None:
         ctx.label("created-near-initial-guess")
+    if kind in ("curve", "circle") and spec.get("hint") is not None:
+        ctx.label("initial-param-given")
     if kind in ("curve", "circle", "polyline"):
         ctx.label("curve=" + kind)
 
@@ -199,6 +205,8 @@ def check_clamp(case, ctx: Ctx) -> None:
 # --------------------------------------------------------------------------------------------------
 # links
 
+# the leader is a public array: it is moved by assigning a new one (as the optimizer does) or in place
+_how = st.sampled_from(["assign", "assign", "slice", "iadd", "item"])
 _move_size = st.floats(-4.0, 1.5)  # displacement 10^x scale: from far below TOL-like sizes to 30 x scale
 
 
@@ -209,10 +217,10 @@ def link_case(kind: str):
         "follower": xm.vec3,
     }
     if kind == "translation":
-        move = st.fixed_dictionaries({"dir": xm.vec3, "mag": _move_size})
+        move = st.fixed_dictionaries({"dir": xm.vec3, "mag": _move_size, "how": _how})
         return st.fixed_dictionaries({**common, "moves": st.lists(move, min_size=1, max_size=3)})
     if kind == "symmetry":
-        move = st.fixed_dictionaries({"dir": xm.vec3, "mag": _move_size})
+        move = st.fixed_dictionaries({"dir": xm.vec3, "mag": _move_size, "how": _how})
         return st.fixed_dictionaries(
             {**common, "normal": xm.vec3, "nlen": xm.nlen, "origin": xm.vec3, "moves": st.lists(move, min_size=1, max_size=3)}
         )
@@ -227,6 +235,7 @@ def link_case(kind: str):
     move = st.fixed_dictionaries(
         {
             "angle": angle,
+            "how": _how,
             "on_circle": st.booleans(),
             "opposite": st.sampled_from([False, False, False, True]),  # leader reflected through the axis
             "dr": st.floats(-0.5, 0.5).map(lambda x: 10.0**x),
@@ -246,9 +255,18 @@ def link_case(kind: str):
     )
 
 
-def _assign_and_update(link, new_leader: np.ndarray, facts) -> None:
+def _assign_and_update(link, new_leader: np.ndarray, facts, how: str = "assign") -> None:
     keep = new_leader.copy()
-    link.leader = new_leader
+    if how == "slice":
+        link.leader[:] = new_leader
+    elif how == "iadd":
+        link.leader += new_leader - link.leader
+        link.leader[:] = new_leader  # the sum above is only accurate to rounding: land exactly on the target
+    elif how == "item":
+        for i in range(3):
+            link.leader[i] = new_leader[i]
+    else:
+        link.leader = new_leader
     try:
         link.update()
     except Exception as ex:
@@ -304,7 +322,8 @@ def check_link(kind: str):
                 target = leader0 + 10.0 ** mv["mag"] * s * unit(xm.fix_vec(mv["dir"]))
             target = np.array(target, dtype=float)
             f = dict(facts, move=i, leader=target.tolist())
-            _assign_and_update(link, target, f)
+            _assign_and_update(link, target, f, mv.get("how", "assign"))
+            ctx.label("leader-moved-in-place" if mv.get("how", "assign") != "assign" else "leader-assigned")
             want = xm.expected_follower(spec, leader0, follower0, target)
             got = np.asarray(link.follower, dtype=float)
             if want is None:
@@ -344,7 +363,7 @@ CELLS = [
          "RadialClamp with and without bounds: same radius and height about the axis, arc-length parameter"),
     Cell("C17/clamp/plane", clamp_case(xm.spec_plane(near_guess=True)), check_clamp, 200, 2500,
          "PlaneClamp: creation on / off the plane (orthogonal projection), n.(x - p) = 0 for any parameters"),
-    Cell("C17/clamp/curve", clamp_case(st.one_of(xm.spec_curve(1.0), xm.spec_circle(1.5), xm.spec_polyline())),
+    Cell("C17/clamp/curve", clamp_case(st.one_of(xm.spec_curve(1.0, hinted=True), xm.spec_circle(1.5, hinted=True), xm.spec_polyline())),
          check_clamp, 300, 3000, "CurveClamp on an analytic parabola, a CircleCurve arc, a LinearInterpolatedCurve"),
     Cell("C17/clamp/surface", clamp_case(xm.spec_surface(1.0, near_guess=True)), check_clamp, 200, 2000,
          "ParametricSurfaceClamp on a saddle patch with / without bounds and initial parameters"),
